@@ -414,6 +414,7 @@ type c11Env struct {
 	ckptID       uint64
 	ckpt         *snapshotpb.OperatorCheckpoint
 	ckptLocation string
+	alignedSet   map[int]bool
 }
 
 // deploy calls the real HandleDeploy (first deployment, redeployment on fresh storage, or recovery from the last
@@ -448,6 +449,7 @@ func (e *c11Env) deploy(location string, ckpts []*snapshotpb.OperatorCheckpoint)
 		e.op.VerifUseTimerCache(cache)
 	}
 	e.location = location
+	e.alignedSet = nil
 	deadline := time.Now().Add(10 * time.Second)
 	for !e.op.VerifReady() {
 		if time.Now().After(deadline) {
@@ -514,19 +516,45 @@ func (e *c11Env) barrier() string {
 	}
 	runners, _ := strconv.Atoi(e.hdr[4])
 	e.ckptID++
-	var last string
+	var last, early string
 	for i := 0; i < runners; i++ {
 		last = e.send(fmt.Sprintf("sr%d", i), &workerpb.Event{Event: &workerpb.Event_CheckpointBarrier{
 			CheckpointBarrier: &workerpb.CheckpointBarrier{CheckpointId: e.ckptID}}})
-		if i < runners-1 && !strings.HasSuffix(last, " -") {
-			return "early-flush " + last // nothing may reach the handler before the last barrier
+		if i < runners-1 && !strings.HasSuffix(last, " -") && early == "" {
+			early = "early-flush " + last + " " // nothing may reach the handler before the last barrier (the alignment is completed all the same)
 		}
 	}
+	last = early + last
 	if e.job.OperatorCheckpoint == nil || e.job.OperatorCheckpoint.CheckpointId != e.ckptID {
 		return "no-checkpoint " + last
 	}
 	e.ckpt, e.ckptLocation = e.job.OperatorCheckpoint, e.location
 	return last
+}
+
+// bar sends the checkpoint barrier of one runner. The first barrier of an alignment opens a new checkpoint id; with the
+// last one the operator flushes its batch and checkpoints its DB. (Runners that already sent theirs must stay silent
+// until then: the operator parks their calls.)
+func (e *c11Env) bar(i int) string {
+	if s := e.startOperator(); s != "" {
+		return s
+	}
+	runners, _ := strconv.Atoi(e.hdr[4])
+	if len(e.alignedSet) == 0 {
+		e.ckptID++
+		e.alignedSet = map[int]bool{}
+	}
+	e.alignedSet[i] = true
+	out := e.send(fmt.Sprintf("sr%d", i), &workerpb.Event{Event: &workerpb.Event_CheckpointBarrier{
+		CheckpointBarrier: &workerpb.CheckpointBarrier{CheckpointId: e.ckptID}}})
+	if len(e.alignedSet) >= runners {
+		e.alignedSet = nil
+		if e.job.OperatorCheckpoint == nil || e.job.OperatorCheckpoint.CheckpointId != e.ckptID {
+			return "no-checkpoint " + out
+		}
+		e.ckpt, e.ckptLocation = e.job.OperatorCheckpoint, e.location
+	}
+	return out
 }
 
 // recover redeploys the operator from its last checkpoint, in the storage location the checkpoint was taken in.
@@ -653,6 +681,9 @@ func (e *c11Env) step(op string) string {
 		return e.redeploy()
 	case "barrier":
 		return e.barrier()
+	case "bar":
+		i, _ := strconv.Atoi(f[1])
+		return e.bar(i)
 	case "recover":
 		return e.recover()
 	case "complete":
@@ -726,7 +757,42 @@ func c11OperatorCase(r *lib.Rng, hdr string) lib.Case {
 		}
 		// a checkpoint (barriers of all runners), and later possibly a recovery from it
 		if r.Chance(1, 14) {
-			c.Ops = append(c.Ops, "barrier")
+			if runners > 1 && r.Bool() {
+				// the barriers arrive one by one; runners that have not sent theirs go on sending in between
+				order := make([]int, runners)
+				for k := range order {
+					order[k] = k
+				}
+				for k := runners - 1; k > 0; k-- {
+					x := r.Intn(k + 1)
+					order[k], order[x] = order[x], order[k]
+				}
+				isActive := func(ri int) bool {
+					for _, a := range active {
+						if a == ri {
+							return true
+						}
+					}
+					return false
+				}
+				for k, ri := range order {
+					c.Ops = append(c.Ops, fmt.Sprintf("bar %d", ri))
+					for _, rj := range order[k+1:] {
+						if !isActive(rj) || !r.Chance(1, 2) {
+							continue
+						}
+						if r.Bool() {
+							wms[rj] += int64(r.Intn(grid/2+1)) * scale
+							c.Ops = append(c.Ops, fmt.Sprintf("wm %d %d", rj, wms[rj]))
+						} else {
+							c.Ops = append(c.Ops, fmt.Sprintf("keyed %d %s %d", rj, lib.Pick(r, keys), int64(r.Intn(grid))*scale))
+						}
+					}
+				}
+				tag("alignment")
+			} else {
+				c.Ops = append(c.Ops, "barrier")
+			}
 			haveCkpt = true
 			tag("barrier")
 			continue
@@ -780,6 +846,15 @@ func c11OperatorCase(r *lib.Rng, hdr string) lib.Case {
 // watermark keeps bounding the operator's watermark (timers 10..40 stay pending at composite 5, fire when ... never here).
 func c11CompletionCases(hdr string) []lib.Case {
 	return []lib.Case{
+		// alignment window: runner 0's barrier arrives, runner 1 advances the watermark past timer 5 (its TimerExpired stays
+		// in the batch of 3), runner 1's barrier arrives: the batch is flushed BEFORE the checkpoint, so after recovery
+		// timer 5 does not fire again and is not lost either (it was handled)
+		{Header: hdr + " 0 3 2 1 26", Tags: []string{"recover", "barrier", "alignment", "multi", "operator", "smallcache"},
+			Ops: []string{"keyed 0 6b 5,9", "wm 0 7", "bar 0", "wm 1 6", "bar 1", "recover", "wm 0 7", "wm 1 7", "wm 0 10", "wm 1 10", "keyed 0 61 -", "keyed 0 61 -", "keyed 0 61 -"}},
+		// finding D45: a TimerExpired still batched when the operator is recovered is handed to the new deployment, whose
+		// restored timer store fires the same timer again
+		{Header: hdr + " 0 2 2 1 26", Tags: []string{"recover", "barrier", "multi", "operator", "D45"},
+			Ops: []string{"keyed 0 6b 5,6", "keyed 0 61 -", "barrier", "wm 0 5", "wm 1 5", "recover", "wm 0 5", "wm 1 5", "keyed 0 61 -"}},
 		// recovery through the real Operator with a 2-entry timer cache: timers 1-3 fire, checkpoint, 4-5 fire, recover:
 		// 4 and 5 are pending again (6 still), 1-3 are not
 		{Header: hdr + " 0 2 2 1 26", Tags: []string{"recover", "barrier", "multi", "operator", "smallcache"},
